@@ -1,6 +1,7 @@
 import Driver.Util
 import Driver.Hash
 import Driver.Codec
+import Driver.Seq
 
 open Driver
 
@@ -10,6 +11,7 @@ def main (args : List String) : IO UInt32 := do
   let rep ← match args with
     | ["hash"] => Driver.Hash.run lines
     | ["codec"] => Driver.CodecEngine.run lines
+    | ["seq"] => Driver.Seq.run lines
     | _ => do IO.eprintln "usage: driver <engine> < trace"; return 2
   IO.println s!"SUMMARY lines={lines.size} checked={rep.checked} diffs={rep.diffs}"
   return 0
